@@ -67,6 +67,8 @@ def install(reg):
         lemmas=[("L1.evalon_monotone", lambda c: T.lemma_evalon_monotone(c.f, EMPTY, c.state))],
     ))
     _strict_contracts(reg)
+    _perc_contracts(reg)
+    _key_contract(reg)
 
 
 # ====================================================================== percolate_space_strict
@@ -159,4 +161,75 @@ def _strict_contracts(reg):
                     z3.And(c.visited[k], c.candidates[k]), T.EvalOn(fv(c, k), c.restriction) == -1)))),
             ], lemmas=[("L1.strict_lfp_extends+closed", lem_lfp), ("L1.evalon_monotone", lem_mono_up)]),
         },
+    ))
+
+
+# ====================================================================== percolate_space / percolation_conflicts / drivers
+def _perc_contracts(reg):
+    from pyvc.externals_aeon import TVarId, varname
+    DT = TDict(TVarId, TBool)
+    vid = z3.Const("vid", TVarId.sort())
+    N = lambda c: net_of(c.network)
+    P = lambda c: T.Perc(N(c), c.space)
+
+    reg.add(Contract(
+        "biobalm.space_utils.percolate_space",
+        params=[("network", TGraph), ("space", TSpace)], result_type=TSpace,
+        properties=("C11", "C02", "C04", "C06"),
+        requires=[lambda c: z3.ForAll([k], z3.Implies(c.space[k] >= 0, T.isvar(N(c), k)))],
+        ensures=[("is_perc", lambda c: c.result == P(c)),
+                 ("names_known", lambda c: z3.ForAll([k], z3.Implies(c.result[k] >= 0, T.isvar(N(c), k))))],
+        local_types={"result": TSpace},
+        loops={0: LoopContract("for var, value in percolated.items()", lambda c: [
+            ("renamed_so_far", z3.ForAll([k], c.local("result")[k] == z3.If(
+                z3.Exists([vid], z3.And(c.visited[vid], varname(c.network, vid) == k)), P(c)[k], -1)))])},
+        note="the wrapper proves that no variable is dropped and no value flipped when AEON's result is renamed; "
+             "that AEON's result is Perc is the assumed contract of Percolation.percolate_subspace",
+    ))
+
+    SNm = TSet(TName)
+    reg.add(Contract(
+        "biobalm.space_utils.percolation_conflicts",
+        params=[("network", TGraph), ("space", TSpace), ("strict_percolation", TBool)], defaults={"strict_percolation": True},
+        result_type=SNm, properties=("C11",),
+        requires=[lambda c: z3.ForAll([k], z3.Implies(c.space[k] >= 0, T.isvar(N(c), k)))],
+        ensures=[("conflicts_exactly", lambda c: z3.ForAll([k], c.result[k] == z3.And(
+            c.perc_space[k] >= 0, T.EvalOn(T.updbdd(N(c), k), c.perc_space) >= 0,
+            c.perc_space[k] != T.EvalOn(T.updbdd(N(c), k), c.perc_space)))),
+            ("percolated_space_is", lambda c: z3.If(c.strict_percolation,
+                                                   z3.ForAll([k], z3.Implies(c.perc_space[k] >= 0, T.nonconst(N(c), k))),
+                                                   c.perc_space == P(c)))],
+        local_types={"conflicts": SNm, "perc_space": TSpace},
+        loops={0: LoopContract("for var, value in perc_space.items()", lambda c: [
+            ("names_known", z3.ForAll([k], z3.Implies(c.perc_space[k] >= 0, T.isvar(N(c), k)))),
+            ("collected", z3.ForAll([k], c.conflicts[k] == z3.And(
+                c.visited[k], T.EvalOn(T.updbdd(N(c), k), c.perc_space) >= 0,
+                c.perc_space[k] != T.EvalOn(T.updbdd(N(c), k), c.perc_space))))])},
+    ))
+
+
+# ====================================================================== space_unique_key
+def _key_contract(reg):
+    from pyvc.externals_aeon import TNetObj, bn_net_of
+    N = lambda c: bn_net_of(c.network)
+    i = z3.Int("i")
+    reg.add(Contract(
+        "biobalm.space_utils.space_unique_key",
+        params=[("space", TSpace), ("network", TNetObj)], result_type=TInt,
+        properties=("C02", "C04", "C20", "C17"),
+        may_raise={"IndexError": {"only_when": lambda c: z3.Not(T.dom_within(c.space, N(c)))}},
+        raises={"IndexError": [("only_for_unknown_names", lambda c: z3.Not(T.dom_within(c.space, N(c))))]},
+        ensures=[("all_names_known", lambda c: T.dom_within(c.space, N(c))),
+                 ("is_key", lambda c: c.result == T.SKey(N(c), c.space))],
+        lemmas=[("def.SKey", lambda c: T.skey_def(N(c), c.space)),
+                ("L10.digits_determine_number", lambda c: T.digits_ext(c.key, T.SKey(N(c), c.space)))],
+        axioms=T.AX_KEY,
+        local_types={"key": TInt},
+        loops={0: LoopContract("for k, v in space.items()", lambda c: [
+            ("nonneg", c.key >= 0),
+            ("visited_known", z3.ForAll([k], z3.Implies(c.visited[k], T.isvar(N(c), k)))),
+            ("digits_of_visited", z3.ForAll([k], z3.Implies(c.visited[k], T.digit4(c.key, T.vidx(N(c), k)) == c.space[k] + 2))),
+            ("other_digits_zero", z3.ForAll([i], z3.Implies(
+                z3.And(i >= 0, z3.ForAll([k], z3.Implies(c.visited[k], T.vidx(N(c), k) != i))), T.digit4(c.key, i) == 0))),
+        ], lemmas=[("vidx.injective", lambda c: T.vidx_facts(N(c)))])},
     ))
